@@ -199,10 +199,12 @@ def gen_mixed(rng, rec, dirty, depth):
     return tuple(out)
 
 
-def gen_doc(rng):
-    """(document as plain Python data with tuples for lists, its type)"""
+def gen_doc(rng, mixed=False):
+    """(document as plain Python data with tuples for lists, its type); `mixed`: also fields holding collections of
+    mixed element kinds, nested three deep (off by default: C08 multiplies every list of a document by up to 40)"""
     k = rng.randint(3, 16)
-    fields = tuple(sorted(rng.sample(DOC_FIELDS, k), key=lambda p: DOC_FIELDS.index(p)))
+    pool = DOC_FIELDS if mixed else tuple(f for f in DOC_FIELDS if not is_mixl(f[1]))
+    fields = tuple(sorted(rng.sample(pool, min(k, len(pool))), key=lambda p: DOC_FIELDS.index(p)))
     t = ('rec', fields)
     dirty = rng.random() < 0.3
     return gen_value(rng, t, dirty), t
@@ -1098,16 +1100,16 @@ def program_env(rng, max_depth, p_env=0.3):
     arguments of builtin methods by keyword; env is None for the plain entry `evaluate(data=doc, context=child of the
     library context)`"""
     if rng.random() >= p_env:
-        ast, doc, t = program(rng, max_depth)
+        ast, doc, t = program(rng, max_depth, None, True)
         return kwify(ast, rng), doc, t, None
     env = gen_host_env(rng)
-    ast, doc, t = program(rng, max_depth, host_scope(env))
+    ast, doc, t = program(rng, max_depth, host_scope(env), True)
     return kwify(ast, rng), doc, t, env_plain(env)
 
 
-def program(rng, max_depth, host_vars=None):
+def program(rng, max_depth, host_vars=None, mixed_docs=False):
     """-> (ast, doc, result type)"""
-    doc, dt = gen_doc(rng)
+    doc, dt = gen_doc(rng, mixed_docs)
     g = Gen(rng, max_depth)
     sc = Scope({'$1': dt}, {})
     if host_vars:
